@@ -385,7 +385,7 @@ pub fn run(tier: Tier, seed: u64, replay: Option<&std::path::Path>) -> i32 {
         run.replay_case::<Case, _>(p, check);
         return run.finish();
     }
-    let n = tier.pick(8_000, 160_000);
+    let n = tier.pick(32_000, 480_000);
     run.explore(1, 16, n / 16, || (lib2(), any::<u16>(), proptest::collection::vec(any::<u16>(), 1..5), proptest::collection::vec(any::<bool>(), 4)).prop_map(|(lib, socket, plugs, mirror)| Case { lib, socket, plugs, mirror }), check);
     for l in ["plugged-ok", "semver-fallback", "incompatible-same-name-offer", "conflict", "idle-plug", "nothing-to-plug", "socket-two-on-track", "two-on-track-with-exact-offer"] {
         run.floor(l, 10);
